@@ -790,7 +790,7 @@ func ruleLatch(c *Ctx, rule string) {
 	okDel := false
 	allInstrs(rm, func(in ssa.Instruction) {
 		if b, ok := in.(*ssa.BinOp); ok && b.Op == token.EQL {
-			if _, ch := fieldChain(b.X); len(ch) == 1 && stripConv(b.Y) == ssa.Value(rm.Params[1]) {
+			if _, ch := fieldChain(b.X); len(ch) == 1 && origin(b.Y) == ssa.Value(rm.Params[1]) {
 				okDel = true
 			}
 		}
